@@ -628,9 +628,16 @@ fn level_fields<'b>(
     stack: &mut BTreeSet<String>,
     out: &mut BTreeMap<String, Vec<&'b MFieldSel>>,
 ) {
+    // in the order in which the printer merges them: the fields written at this level first, then those that
+    // fragment spreads and inline fragments contribute
+    for s in sels {
+        if let MSelection::Field(f) = s {
+            out.entry(f.key().to_string()).or_default().push(f);
+        }
+    }
     for s in sels {
         match s {
-            MSelection::Field(f) => out.entry(f.key().to_string()).or_default().push(f),
+            MSelection::Field(_) => {}
             MSelection::Spread { name, .. } => {
                 if stack.insert(name.clone()) {
                     if let Some(fr) = frags.get(name) {
@@ -648,19 +655,26 @@ fn level_fields<'b>(
 /// one of their sub-selections has a variable condition at its level. Conservative
 /// (type conditions ignored => superset).
 pub fn has_merged_key_with_var_condition(sels: &[MSelection], frags: &BTreeMap<String, MFragment>) -> bool {
+    merged_key_with_var_condition_in(&[sels], frags)
+}
+
+/// `occurrences`: the sub-selections of the occurrences of one response key, in the order in which the printer
+/// merges them (left to right); their fields meet under the same keys one level down
+fn merged_key_with_var_condition_in(occurrences: &[&[MSelection]], frags: &BTreeMap<String, MFragment>) -> bool {
     let mut groups = BTreeMap::new();
-    level_fields(sels, frags, &mut BTreeSet::new(), &mut groups);
+    for sels in occurrences {
+        // per occurrence: the fields written at the level first, then those contributed by fragments
+        level_fields(sels, frags, &mut BTreeSet::new(), &mut groups);
+    }
     for (_, fs) in groups {
-        let subs: Vec<&Vec<MSelection>> = fs.iter().filter_map(|f| f.sel.as_ref()).collect();
-        if subs.len() >= 2 && subs.iter().any(|s| level_has_var_condition(s, frags, &mut BTreeSet::new())) {
+        let subs: Vec<&[MSelection]> = fs.iter().filter_map(|f| f.sel.as_deref()).collect();
+        // (the finding needs a variable condition in an occurrence other than the first one: branches of the
+        // left operand are kept, those of the right operand are paired by type name only)
+        if subs.len() >= 2 && subs.iter().skip(1).any(|s| level_has_var_condition(s, frags, &mut BTreeSet::new())) {
             return true;
         }
-        // recurse into the merged sub-selection (concatenation of all)
-        if !subs.is_empty() {
-            let merged: Vec<MSelection> = subs.iter().flat_map(|s| s.iter().cloned()).collect();
-            if has_merged_key_with_var_condition(&merged, frags) {
-                return true;
-            }
+        if !subs.is_empty() && merged_key_with_var_condition_in(&subs, frags) {
+            return true;
         }
     }
     false
